@@ -614,6 +614,8 @@ class Tr:
                     raise
                 # the test (or a branch) is outside the subset: every name the statement assigns becomes unknown
                 if not self._test_ok(s.test, env):
+                    if kind == "raises" and any(isinstance(n, ast.Raise) for n in ast.walk(s)):
+                        raise Untranslatable("a raise under a condition outside the supported subset (%s)" % ex)
                     env2 = dict(env)
                     for n in self.assigned([s]):
                         env2[n] = Poison("assigned under a condition outside the supported subset (%s)" % ex)
@@ -643,6 +645,8 @@ class Tr:
             for n in self.assigned([s]):
                 env2[n] = Poison("assigned in a loop")
             return K(env2)
+        if kind == "raises" and any(isinstance(n, (ast.Raise, ast.Assert)) for n in ast.walk(s)):
+            raise Untranslatable("a raise inside a %s statement" % type(s).__name__)
         if kind in ("local", "raises"):
             if isinstance(s, (ast.Expr, ast.Assert, ast.Import, ast.ImportFrom, ast.Delete, ast.Global, ast.Nonlocal)):
                 return K(env)
